@@ -123,6 +123,29 @@ HAND = [
   z = relabel(label)
   return (r, s, z)
 '''),
+    ('ty:same_name_defined_on_two_paths', '''def f(x: int, y: float, b: bool, k: int):
+  a = x
+  if b:
+    def pick(p: int):
+      u = a
+      return u
+    r = pick(0)
+  else:
+    def pick(p: int):
+      v = a
+      return v
+    r = pick(0)
+  a = y
+  s = pick(2)
+  if k > 0:
+    def pick(p: int):
+      w = a
+      return w
+    q = pick(5)
+  a = b
+  z = pick(3)
+  return (r, s, z)
+'''),
     ('ty:closure_after_break', '''def f(x: int, y: float, b: bool, k: int):
   c = 1
   def g(p: int):
